@@ -89,8 +89,49 @@ fn run_n<const N: usize>(max_runs: usize, only_single: bool) {
     }
 }
 
+fn run_dynamic(events: usize, allow_bad: bool, labels: u32, max_runs: usize) {
+    use crustabri_verif::dynamics::*;
+    let mut summary: BTreeMap<String, (usize, Vec<String>)> = BTreeMap::new();
+    for which in [Dyn::Complete, Dyn::Stable, Dyn::Preferred, Dyn::DummyCoPr, Dyn::DummySt, Dyn::CompleteAttacks, Dyn::StableAttacks] {
+        let attacks = matches!(which, Dyn::CompleteAttacks | Dyn::StableAttacks);
+        let plan = Plan { events, allow_bad, labels: if attacks { labels.min(2) } else { labels }, arg_factor: 1.0 };
+        let f = || {
+            let sh = Rc::new(Shared::default());
+            sh.allow_none.set(true);
+            history::<64>(which, plan, &sh);
+        };
+        let t0 = std::time::Instant::now();
+        let (runs, disc, failures) = native::explore(f, max_runs);
+        println!("{:?}: runs {} discarded {} failures {} ({:.1}s){}", which, runs, disc, failures.len(), t0.elapsed().as_secs_f64(),
+            if runs >= max_runs { " TRUNCATED" } else { "" });
+        for (script, msg) in failures {
+            let key = format!("{:?} :: {}", which, msg);
+            let e = summary.entry(key).or_insert((0, vec![]));
+            e.0 += 1;
+            if e.1.len() < 3 || script.len() < e.1[0].len() / 4 {
+                e.1.insert(0, format!("{:?}", script));
+                e.1.truncate(3);
+            }
+        }
+    }
+    for (k, (n, ex)) in summary {
+        println!("{:6} x {}", n, k);
+        for e in ex {
+            println!("          e.g. script={}", e);
+        }
+    }
+}
+
 fn main() {
     let args: Vec<String> = std::env::args().collect();
+    if args.get(1).map(|s| s == "dynamic").unwrap_or(false) {
+        let events: usize = args.get(2).map(|s| s.parse().unwrap()).unwrap_or(4);
+        let allow_bad = args.get(3).map(|s| s == "bad").unwrap_or(false);
+        let labels: u32 = args.get(4).map(|s| s.parse().unwrap()).unwrap_or(2);
+        let max_runs: usize = args.get(5).map(|s| s.parse().unwrap()).unwrap_or(3_000_000);
+        run_dynamic(events, allow_bad, labels, max_runs);
+        return;
+    }
     let n: usize = args.get(2).map(|s| s.parse().unwrap()).unwrap_or(2);
     let max_runs: usize = args.get(3).map(|s| s.parse().unwrap()).unwrap_or(20000);
     let only_single = args.get(4).map(|s| s == "single").unwrap_or(false);
